@@ -33,6 +33,16 @@ Theorem C15_fallback_two_instances_refuted :
 Proof. exact fallback_two_instances_refuted. Qed.
 Print Assumptions C15_fallback_two_instances_refuted.
 
+(* ... and within ONE generator instance (one mutex) the fallback is safe for any number of callers, any
+   candidates and any schedule at Exists/Set granularity: no id is handed out twice *)
+Theorem C15_fallback_one_instance_unique :
+  forall (cands : list id) (sched : list nat),
+  let s := run _ _ fstep ({| f_marks := fun _ => false; f_locks := fun _ => false |},
+                          map (fun c => {| f_inst := 0; f_cand := c; f_pc := FIdle |}) cands) sched in
+  NoDup (flat_map f_done (snd s)).
+Proof. exact fallback_one_instance_unique. Qed.
+Print Assumptions C15_fallback_one_instance_unique.
+
 (* non-vacuity: concrete callers satisfy the hypothesis *)
 Theorem C15_premises_satisfiable :
   forall g, In g [init_gen 100 [OpGen; OpRel; OpGen] [5;5;6]%N []; init_gen 100 [OpGen] [5;6]%N [true]] -> held g = [].
